@@ -2109,3 +2109,11 @@ M("C15-instance-registered-after-type-only", "C15", F_IN,
 M("C15-benign-instance-registered-by-insert", "C15", F_IN,
   "  subst[this] = rep;\n\n  CPPDeclaration *new_type =", "  subst.insert(SubstDecl::value_type(this, rep));\n\n  CPPDeclaration *new_type =",
   benign=True)
+
+# ---- R20.12 (F-C20d)
+M("C20-modules-by-hash-guarded-by-the-other-name", "C20", F_DBX,
+  "  if (def->num_unique_names > 0 && def->library_hash_name != nullptr) {", "  if (def->num_unique_names > 0 && def->library_name != nullptr) {",
+  expect="R20.12|InterrogateDatabase::request_module|")
+M("C20-benign-modules-by-hash-guard-reordered", "C20", F_DBX,
+  "  if (def->num_unique_names > 0 && def->library_hash_name != nullptr) {", "  if (def->library_hash_name != nullptr && def->num_unique_names > 0) {",
+  benign=True)
